@@ -137,6 +137,7 @@ type FilterSpec struct {
 	Forward      bool   `json:"forward,omitempty"`
 	Logout       bool   `json:"logout,omitempty"`
 	ViaOverride  bool   `json:"via_override,omitempty"` // written as oidc_override over a default_oidc_config (shared id_token/logout/scopes)
+	TokenLife    int    `json:"token_life,omitempty"`   // seconds the realm's tokens live (default 3600; real clock)
 }
 
 type SWorld struct {
@@ -173,6 +174,9 @@ func NewSWorld(filters []FilterSpec, extra map[string]any) (*SWorld, error) {
 			idp.Issuer = "http://" + host
 			idp.TokenURL = "http://" + host + "/token"
 			idp.TokenLife = 3600
+			if f.TokenLife > 0 {
+				idp.TokenLife = f.TokenLife
+			}
 			sw.Realms[f.Realm] = idp
 			RegisterHost(host, idp)
 			sw.hosts = append(sw.hosts, host)
@@ -282,6 +286,69 @@ func NewSWorld(filters []FilterSpec, extra map[string]any) (*SWorld, error) {
 		idp.ClientID = f.ClientID
 	}
 	return sw, nil
+}
+
+// NewSWorldOnConfig assembles the long-lived part of the service (TLS pool, key source, session-store factory,
+// ExtAuthZFilter) around a configuration object the caller already holds (and keeps changing, e.g. through the
+// secret controller): chain i is wired to filters[i] - name, x-tenant match, callback and the provider endpoints of
+// its realm on the in-memory network. No loader, memory stores only.
+func NewSWorldOnConfig(cfg *configv1.Config, filters []FilterSpec) (*SWorld, error) {
+	InitKeys()
+	InstallMemNet()
+	n := atomic.AddInt64(&sworldSeq, 1)
+	sw := &SWorld{Filters: filters, Realms: map[string]*SimIdP{}, Redis: map[string]*miniredis.Miniredis{}}
+	for i, f := range filters {
+		host := fmt.Sprintf("w%d-%s", n, f.Realm)
+		if _, ok := sw.Realms[f.Realm]; !ok {
+			idp := NewSimIdP(time.Now, f.ClientID, nil, "https://app.test/"+f.Name+"/callback")
+			secret := f.Secret
+			idp.Secret = func() string { return secret }
+			idp.Issuer = "http://" + host
+			idp.TokenURL = "http://" + host + "/token"
+			idp.TokenLife = 3600
+			sw.Realms[f.Realm] = idp
+			RegisterHost(host, idp)
+			sw.hosts = append(sw.hosts, host)
+		}
+		ch := cfg.Chains[i]
+		ch.Name = f.Name
+		ch.Match = &configv1.Match{Header: "x-tenant", Criteria: &configv1.Match_Equality{Equality: f.Name}}
+		o := ch.Filters[0].GetOidc()
+		o.AuthorizationUri, o.TokenUri = "http://"+host+"/auth", "http://"+host+"/token"
+		o.CallbackUri = "https://app.test/" + f.Name + "/callback"
+	}
+	sw.Cfg = cfg
+	ctx, cancel := context.WithCancel(context.Background())
+	sw.cancel = cancel
+	sw.Pool = internal.NewTLSConfigPool(ctx)
+	jwks := oidc.NewJWKSProvider(sw.Cfg, sw.Pool)
+	go func() { _ = jwks.ServeContext(ctx) }()
+	sw.Sessions = oidc.NewSessionStoreFactory(sw.Cfg)
+	if err := sw.Sessions.PreRun(); err != nil {
+		sw.Close()
+		return nil, err
+	}
+	sw.Check = server.NewExtAuthZFilter(sw.Cfg, sw.Pool, jwks, sw.Sessions)
+	return sw, nil
+}
+
+// LastTokenAuthorization is the Authorization header of the most recent token request that reached a realm.
+func (sw *SWorld) LastTokenAuthorization(realm string) string {
+	idp := sw.Realms[realm]
+	idp.mu.Lock()
+	defer idp.mu.Unlock()
+	if len(idp.TokenReqs) == 0 {
+		return ""
+	}
+	return idp.TokenReqs[len(idp.TokenReqs)-1].Header.Get("Authorization")
+}
+
+// TokenRequests is the number of token requests that reached a realm.
+func (sw *SWorld) TokenRequests(realm string) int {
+	idp := sw.Realms[realm]
+	idp.mu.Lock()
+	defer idp.mu.Unlock()
+	return len(idp.TokenReqs)
 }
 
 func (sw *SWorld) Close() {
